@@ -164,7 +164,7 @@ func cmdCheck(args []string) {
 	if *tier == "thorough" {
 		timeout = 90 * time.Second
 	}
-	solveAll(obls, timeout, portfolio, 6)
+	solveAll(obls, timeout, portfolio, 12)
 
 	// evaluated base cases and bounded stand-ins (labelled bounded; never counted as proved)
 	btests := []string{"TestVerifGlobals"}
